@@ -37,8 +37,8 @@ def record_problems(res, x, direct, gen, t_by_elem, method, n):
                     % (val.size, est.size, fs.size)))
     else:
         try:
-            np.broadcast_to(est, val.shape)
-            np.broadcast_to(fs, val.shape)
+            np.broadcast_shapes(est.shape, val.shape)
+            np.broadcast_shapes(fs.shape, val.shape)
         except ValueError:
             if not (est.size == val.size and np.squeeze(est).shape == np.squeeze(val).shape):
                 out.append(('record-shape', 'error_estimate %r / final_step %r do not broadcast against result %r'
